@@ -865,6 +865,19 @@ pub mod verif {
             message.block_presences.len(),
         ))
     }
+
+    /// Decode a Bitswap wire message into the raw `(block, want_type)` of every wantlist entry and the
+    /// raw `(cid, type)` of every block presence.
+    #[allow(clippy::type_complexity)]
+    pub fn decode_message_cids(bytes: &[u8]) -> Option<(Vec<(Vec<u8>, i32)>, Vec<(Vec<u8>, i32)>)> {
+        let message = schema::bitswap::Message::decode(bytes).ok()?;
+        Some((
+            message
+                .wantlist
+                .map_or(Vec::new(), |w| w.entries.into_iter().map(|e| (e.block, e.want_type)).collect()),
+            message.block_presences.into_iter().map(|p| (p.cid, p.r#type)).collect(),
+        ))
+    }
 }
 
 #[cfg(test)]
